@@ -170,6 +170,11 @@ package limit
 //@   ensures [C04 C12] (result1 == nil) <==> (opts.Input != nil && opts.Limit.Interval > 0 && opts.Limit.Quantity > 0)
 //@   ensures [*] result1 == nil ==> result0 != nil
 
+// API accessors (run by other goroutines)
+//@ func (*Discipline).Output
+//@   requires [*] dsc != nil
+//@   ensures [* C12] the-channel-the-discipline-delivers-on: result == dsc.output
+
 // ---------------------------------------------------------------- C20: ownership discipline
 //@ confine Discipline
 //@ shared opts output
